@@ -139,5 +139,10 @@ pub fn run() -> bool {
     let s = exec(tsg, "pass", false, false);
     let l = exec(tsg, "pass", true, false);
     rec("D15", s.is_ok() && l.is_ok(), "C05 a capture inside an attribute shorthand must not panic", format!("strict={:?} lazy={:?}", s, l));
+    // 16 a fourth USER capture on one pattern step: tree-sitter drops it and still reports it as occurring once
+    let tsg = "(assignment left: (identifier) @_a @_b @_c @d) { node n attr (n) v = @d }";
+    let s = exec(tsg, "x = 1\n", false, false);
+    let l = exec(tsg, "x = 1\n", true, false);
+    rec("D16", s.is_ok() && l.is_ok(), "C05 a capture that tree-sitter dropped from the match (more than three on one step) must not panic", format!("strict={:?} lazy={:?}", s, l));
     all
 }
